@@ -272,6 +272,45 @@ Proof.
     rewrite H1, H2. reflexivity.
 Qed.
 
+(* with a least owner the set of possible winners is that owner alone *)
+Lemma minimal_set_least l x : NoDup (map gv_file l) -> least l x -> forall w, In w (minimal_set l) <-> w = x.
+Proof.
+  intros Hnd [Hin Hl] w. unfold minimal_set. rewrite filter_In. split.
+  - intros [Hw Hm]. destruct (Hl w Hw) as [->|Hb]; [reflexivity|].
+    unfold is_minimal in Hm. rewrite forallb_forall in Hm. specialize (Hm x Hin). rewrite Hb in Hm. discriminate.
+  - intros ->. split; [exact Hin|]. unfold is_minimal. apply forallb_forall. intros u Hu.
+    destruct (Hl u Hu) as [->|Hb]; [rewrite beats_irrefl; reflexivity|]. rewrite (beats_asym _ _ Hb). reflexivity.
+Qed.
+
+(* every minimal definition does win in some order: visit it first *)
+Lemma minimal_wins_first l x : NoDup (map gv_file l) -> In x l -> (forall w, In w l -> beats w x = false) ->
+  exists l', Permutation l l' /\ last_opt (run l') = Some x.
+Proof.
+  intros Hnd Hin Hmin. apply in_split in Hin as [l1 [l2 ->]].
+  exists (x :: l1 ++ l2). split; [apply Permutation_sym, Permutation_middle|].
+  unfold run. simpl. change (vec_step [] x) with ([] ++ [x]).
+  rewrite fold_frozen; [reflexivity|].
+  intros w Hw. split.
+  - apply beq_false. intros Heq. apply (NoDup_map_split_neq gv_file l1 x l2 w Hnd Hw). symmetry. exact Heq.
+  - apply Hmin. apply in_app_or in Hw as [Hw|Hw]; apply in_or_app; [left|right; right]; exact Hw.
+Qed.
+
+Lemma vars_of_tagged n l : vars_of n (map (fun v => (n, v)) l) = l.
+Proof.
+  unfold vars_of. induction l as [|v l IH]; [reflexivity|]. simpl. rewrite beq_refl. simpl. f_equal. exact IH.
+Qed.
+
+Theorem merge_minimal_reachable n l x : NoDup (map gv_file l) -> In x l -> (forall w, In w l -> beats w x = false) ->
+  exists l', Permutation l l' /\ winner (merge (map (fun v => (n, v)) l')) n = Some x.
+Proof.
+  intros Hnd Hin Hmin. destruct (minimal_wins_first l x Hnd Hin Hmin) as [l' [Hp Hr]].
+  exists l'. split; [exact Hp|]. rewrite winner_run, vars_of_tagged. exact Hr.
+Qed.
+
+Theorem minimal_set_least_items items n x : NoDup (map gv_file (vars_of n items)) -> least (vars_of n items) x ->
+  forall w, In w (minimal_set (vars_of n items)) <-> w = x.
+Proof. intros Hnd Hl. apply minimal_set_least; assumption. Qed.
+
 (* ------------------------------------------------------------------ best match *)
 Section Best.
   Variables cur refer : list N.
